@@ -114,6 +114,7 @@ struct World
   uint32_t fd_limit;
   uint64_t chunk_state;      // 0 = full reads
   uint64_t clock0;
+  uint64_t clock_reads;   // reads of gettimeofday/clock_gettime/clock/rand by the code under test (each one moves the value on)
   std::vector<std::string> console;
   std::vector<SigPlan> sigs;
   void (*sigint_disposition)(int);
